@@ -12,7 +12,7 @@
 From Coq Require Import Extraction ExtrOcamlBasic ExtrOcamlString List NArith ZArith Arith Bool.
 From M4 Require Import Base.Bits Lin.Mat Lin.Ops Alg.Gauss.
 From M4 Require Lin.Spec Alg.PLE Alg.PLESpec Alg.TRSM Alg.Mul Alg.Solve Sys.IO.
-From M4 Require Alg.PLERussian Lin.Combine.
+From M4 Require Alg.PLERussian Lin.Combine Alg.TrtriRussian.
 From M4 Require Word.WMat Alg.Gray Alg.Strassen Alg.StrassenGen Alg.M4RI Alg.EchelonPLUQ Alg.TRSMRec Alg.DJB.
 Import ListNotations.
 Extraction Blacklist List String Nat Int.
@@ -216,6 +216,10 @@ Definition x_tb_inv_m4ri (k : nat) (A : mat) : option mat :=
   end.
 Definition x_z_of_nat := Z.of_nat.
 
+(* ---- Tier B, C05: the Four-Russians base routine of triangular inversion (Alg/TrtriRussian.v; Properties_C05.v) ---- *)
+Definition x_tb_trtri_russian := TrtriRussian.trtri_upper_russian.
+Definition x_tb_trtri_fr := TrtriRussian.trtri_upper_rec_fr.
+
 (* ---- C13: row combination from word offsets (Lin/Combine.v; theorems in Properties_C13.v) ---- *)
 Definition x_combine := Combine.combine.
 
@@ -242,5 +246,5 @@ Extraction "m4model.ml"
   (* Tier B *) x_tb_base x_tb_mul_naive x_tb_addmul_naive x_tb_mul_m4rm x_tb_addmul_m4rm x_tb_mul x_tb_addmul x_tb_addmul_raw
             x_tb_mul_mp x_tb_addmul_mp x_tb_djb_compile x_tb_djb_apply x_tb_make_table x_tb_m4ri x_tb_top
             x_tb_echelon_pluq x_tb_hybrid x_tb_trsm_lower_left x_tb_trsm_upper_left x_tb_trsm_upper_right
-            x_tb_trsm_lower_right x_tb_trtri x_tb_inv_m4ri x_z_of_nat x_tb_ple_russian x_tb_pluq_russian x_combine.
+            x_tb_trsm_lower_right x_tb_trtri x_tb_inv_m4ri x_z_of_nat x_tb_ple_russian x_tb_pluq_russian x_combine x_tb_trtri_russian x_tb_trtri_fr.
 Cd "..".
